@@ -18,6 +18,9 @@ pub const NB: usize = 64;
 
 /// the compressed line with n positions (n >= 5): 0,1,..,k-1, [k .. M-(n-k-1)], ..., M-1, M
 pub fn units(n: usize) -> Vec<(u32, u32)> {
+    if n == landmark_units().len() {
+        return landmark_units();
+    }
     let left = n / 2 + (n % 2); // positions before the fat one (incl. 0)
     let right = n - left - 1;
     let mut v = vec![];
@@ -27,6 +30,23 @@ pub fn units(n: usize) -> Vec<(u32, u32)> {
     v.push((left as u32, M - right as u32));
     for i in (0..right as u32).rev() {
         v.push((M - i, M - i));
+    }
+    v
+}
+
+/// a second line for the interval algebra: single positions at the values where encodings change (ASCII / Latin-1 /
+/// 2- and 3-byte UTF-8, the surrogate block, U+FFFD, the BMP border, plane borders) and one fat position between two
+/// landmarks that are not adjacent. Nothing in the statement singles these values out; code that treats SMT characters
+/// as Rust chars or bytes does.
+pub fn landmark_units() -> Vec<(u32, u32)> {
+    let marks: [u32; 16] = [0x7F, 0x80, 0xFF, 0x100, 0x7FF, 0x800, 0xD7FF, 0xD800, 0xDFFF, 0xE000, 0xFFFD, 0xFFFE, 0xFFFF, 0x10000, 0x1FFFF, 0x20000];
+    let mut v: Vec<(u32, u32)> = vec![(0, marks[0] - 1)];
+    for (i, &m) in marks.iter().enumerate() {
+        v.push((m, m));
+        let next = if i + 1 < marks.len() { marks[i + 1] } else { M + 1 };
+        if next > m + 1 {
+            v.push((m + 1, next - 1));
+        }
     }
     v
 }
@@ -113,6 +133,19 @@ fn perms(v: &[usize]) -> Vec<Vec<usize>> {
 
 // =============================================================================================
 // C11
+
+
+/// try_from_iter takes any iterator: the sets are handed over through adaptors with exact and with inexact size hints
+const TRY_ITER_KINDS: usize = 5;
+fn try_iter_via(kind: usize, sets: &[CharSet]) -> Result<CharPartition, aws_smt_strings::errors::Error> {
+    match kind % TRY_ITER_KINDS {
+        0 => CharPartition::try_from_iter(sets.iter().copied()),
+        1 => CharPartition::try_from_iter(sets.iter().copied().filter(|_| true)),
+        2 => CharPartition::try_from_iter(sets.iter().flat_map(|x| std::iter::once(*x))),
+        3 => CharPartition::try_from_iter(sets.iter().copied().take_while(|_| true)),
+        _ => CharPartition::try_from_iter(sets.to_vec().into_iter().skip_while(|_| false)),
+    }
+}
 
 /// all checks of C11 on one partition (given over the line with n positions); returns violation messages
 fn c11_partition(n: usize, p: &Part, rep: &mut Report) -> Vec<String> {
@@ -274,9 +307,9 @@ fn c11_partition(n: usize, p: &Part, rep: &mut Report) -> Vec<String> {
         if p.len() <= 4 {
             let idx: Vec<usize> = (0..p.len()).collect();
             let mut first: Option<CharPartition> = None;
-            for order in perms(&idx) {
+            for (oi, order) in perms(&idx).into_iter().enumerate() {
                 let sets: Vec<CharSet> = order.iter().map(|&k| CharSet::range(ivs[k].0, ivs[k].1)).collect();
-                for (name, res) in [("try_from_list", CharPartition::try_from_list(&sets)), ("try_from_iter", CharPartition::try_from_iter(sets.iter().copied()))] {
+                for (name, res) in [("try_from_list", CharPartition::try_from_list(&sets)), ("try_from_iter", try_iter_via(oi + p.len(), &sets)), ("try_from_iter (filtered iterator)", try_iter_via(1 + oi % 4, &sets))] {
                     match res {
                         Ok(q) => match &first {
                             None => {
@@ -322,18 +355,23 @@ fn c11_list(n: usize, l: &[(usize, usize)]) -> Option<String> {
     let us = units(n);
     let sets: Vec<CharSet> = l.iter().map(|&(i, j)| CharSet::range(us[i].0, us[j].1)).collect();
     let disjoint = (0..l.len()).all(|a| (a + 1..l.len()).all(|b| l[a].1 < l[b].0 || l[b].1 < l[a].0));
-    let r = guarded(|| (CharPartition::try_from_list(&sets), CharPartition::try_from_iter(sets.iter().copied())));
+    let kind = l.iter().map(|x| x.0 + 3 * x.1).sum::<usize>();
+    // three routes: try_from_list, try_from_iter through one adaptor, try_from_iter through an adaptor with an
+    // inexact size hint
+    let r = guarded(|| vec![("try_from_list", CharPartition::try_from_list(&sets)), ("try_from_iter", try_iter_via(kind, &sets)), ("try_from_iter (inexact size hint)", try_iter_via(1 + kind % 4, &sets))]);
     match r {
         Err(e) => Some(format!("try_from_list({:?}) {}", l, e)),
-        Ok((a, b)) => {
-            if a.is_ok() != disjoint || b.is_ok() != disjoint {
-                return Some(format!("try_from_list/iter({:?}) = {}/{} but the intervals are {}pairwise disjoint", raw(&us, &l.to_vec()), if a.is_ok() { "Ok" } else { "Err" }, if b.is_ok() { "Ok" } else { "Err" }, if disjoint { "" } else { "not " }));
-            }
-            if let Ok(p) = a {
-                let mut sorted = l.to_vec();
-                sorted.sort();
-                if intervals_of(&p) != raw(&us, &sorted) {
-                    return Some(format!("try_from_list({:?}) = {} is not the sorted list of the intervals", raw(&us, &l.to_vec()), p));
+        Ok(results) => {
+            let mut sorted = l.to_vec();
+            sorted.sort();
+            for (name, res) in results {
+                if res.is_ok() != disjoint {
+                    return Some(format!("{}({:?}) = {} but the intervals are {}pairwise disjoint", name, raw(&us, &l.to_vec()), if res.is_ok() { "Ok" } else { "Err" }, if disjoint { "" } else { "not " }));
+                }
+                if let Ok(p) = res {
+                    if intervals_of(&p) != raw(&us, &sorted) {
+                        return Some(format!("{}({:?}) = {} is not the sorted list of the intervals", name, raw(&us, &l.to_vec()), p));
+                    }
                 }
             }
             // which error is returned for overlapping input is not part of the statement
@@ -727,6 +765,47 @@ fn merge_via(kind: usize, l: &[&CharPartition]) -> CharPartition {
     }
 }
 
+/// a list of k partitions: element i contributes one interval of its own (and every third one a second interval);
+/// merged in a rotated order through one of the iterator adaptors
+fn c12_manylist(k: usize, variant: usize, rot: usize, kind: usize) -> Option<String> {
+    publish_case(|| json!({"kind": "manylists", "k": k, "variant": variant, "rot": rot, "iter": kind}));
+    let raws: Vec<Vec<(u32, u32)>> = (0..k)
+        .map(|i| {
+            let i = i as u32;
+            let mut v = vec![(10 * i + 5, 10 * i + 6)];
+            if variant >= 1 && i % 3 == 0 {
+                v.push((10 * i + 8, 10 * i + 12));
+            }
+            if variant == 2 {
+                v.insert(0, (0, 2));
+            }
+            v
+        })
+        .collect();
+    let order: Vec<usize> = (0..k).map(|i| (i + rot) % k.max(1)).collect();
+    let r = guarded(|| {
+        let cps: Vec<CharPartition> = order
+            .iter()
+            .map(|&i| {
+                let mut cp = CharPartition::new();
+                for &(l, h) in &raws[i] {
+                    cp.push(l, h);
+                }
+                cp
+            })
+            .collect();
+        let l: Vec<&CharPartition> = cps.iter().collect();
+        let m = merge_via(kind, &l);
+        let refs: Vec<&Vec<(u32, u32)>> = raws.iter().collect();
+        let (exp, _) = expected_merge_raw(&refs);
+        (intervals_of(&m) != exp).then(|| format!("merge_partition_list of {} partitions (variant {}, rotation {}, iterator adaptor {}) = {} intervals {:?}.., expected {} {:?}..", k, variant, rot, kind, m.len(), &intervals_of(&m)[..m.len().min(4)], exp.len(), &exp[..exp.len().min(4)]))
+    });
+    match r {
+        Ok(m) => m,
+        Err(e) => Some(format!("merge_partition_list of {} partitions {}", k, e)),
+    }
+}
+
 fn c12_pair(n: usize, p1: &Part, p2: &Part) -> Option<String> {
     publish_case(|| json!({"kind": "pair", "line": n, "p1": p1, "p2": p2}));
     let us = units(n);
@@ -903,6 +982,23 @@ fn c12_run(ctx: &Ctx, batch: usize, nb: usize, rep: &mut Report) {
             }
         }
     }
+    // lists of 1..24 partitions: element i contributes one interval of its own (and every third one a second interval
+    // shared with its neighbour), so that dropping or repeating any element of the list changes the result
+    if batch == 2 % nb {
+        for k in 1..=24usize {
+            for variant in 0..3 {
+                for rot in [0usize, 1, k / 2] {
+                    for kind in 0..ITER_KINDS {
+                        rep.inc("evaluations");
+                        rep.inc("long_lists_of_short_partitions");
+                        if let Some(m) = c12_manylist(k, variant, rot, kind) {
+                            rep.violation("C12", "c12", json!({"kind": "manylists", "k": k, "variant": variant, "rot": rot, "iter": kind}), m);
+                        }
+                    }
+                }
+            }
+        }
+    }
     // lists of four (every order) and five partitions over a short line
     let n3 = 3usize;
     let small = enum_parts(n3);
@@ -922,8 +1018,11 @@ fn c12_run(ctx: &Ctx, batch: usize, nb: usize, rep: &mut Report) {
                     if let Some(m) = c12_list_given(n3, &l) {
                         rep.violation("C12", "c12", json!({"kind": "list", "line": n3, "parts": l}), m);
                     }
-                    if ctx.tier == Tier::Thorough {
-                        for e in &small {
+                    // five: every list in the thorough tier; in the quick tier those whose fifth element is one of
+                    // three fixed partitions (the merge strategy may depend on the length of the list)
+                    let fifth: Vec<&Part> = if ctx.tier == Tier::Thorough { small.iter().collect() } else { vec![&small[1], &small[small.len() / 2], &small[small.len() - 1]] };
+                    {
+                        for e in fifth {
                             rep.inc("evaluations");
                             rep.inc("lists5");
                             let l = vec![a.clone(), b.clone(), c.clone(), d.clone(), e.clone()];
@@ -953,9 +1052,13 @@ fn c12_replay(_ctx: &Ctx, c: &Value, rep: &mut Report) {
             let ls: Vec<(usize, u32, u32)> = c["layouts"].as_array().map(|a| a.iter().map(|t| (t[0].as_u64().unwrap_or(10) as usize, t[1].as_u64().unwrap_or(0) as u32, t[2].as_u64().unwrap_or(0) as u32)).collect()).unwrap_or_default();
             c12_long(&ls)
         }
+        "manylists" => {
+            let g = |k: &str| c[k].as_u64().unwrap_or(0) as usize;
+            c12_manylist(g("k").max(1), g("variant"), g("rot"), g("iter"))
+        }
         _ => {
             let ps: Vec<Part> = c["parts"].as_array().map(|a| a.iter().map(parse_part).collect()).unwrap_or_default();
-            c12_list(n, &ps)
+            c12_list_given(n, &ps).or_else(|| if ps.len() <= 4 { c12_list(n, &ps) } else { None })
         }
     };
     if let Some(m) = m {
@@ -968,7 +1071,7 @@ fn c12_meta(ctx: &Ctx) -> Meta {
     let np = enum_parts(n).len();
     Meta {
         level: "exploration",
-        rule: format!("all {} x {} ordered pairs of partitions over a compressed line of {} positions; expected result = the maximal runs of positions with equal (class in p1, class in p2) other than (complement, complement), complement = intersection of the complements with a witness inside it; merge with the empty partition on either side; every ordered pair also as a two-element list through merge_partition_list, the list handed over through iterator adaptors with exact and with inexact size hints (slice, filter, skip_while, flat_map, once+chain); lists of three partitions in all 6 orders and with an empty partition inserted at every place; all lists of four (thorough: and five) partitions over a 3-position line; long partitions (9-257 intervals in several adjacency patterns and shifts) merged pairwise and in folds of three, expected result from a sweep over all end points; run in the release and dev profiles; non-trivial = ordered pairs of two different non-empty partitions", np, np, n),
+        rule: format!("all {} x {} ordered pairs of partitions over a compressed line of {} positions; expected result = the maximal runs of positions with equal (class in p1, class in p2) other than (complement, complement), complement = intersection of the complements with a witness inside it; merge with the empty partition on either side; every ordered pair also as a two-element list through merge_partition_list, the list handed over through iterator adaptors with exact and with inexact size hints (slice, filter, skip_while, flat_map, once+chain); lists of three partitions in all 6 orders and with an empty partition inserted at every place; all lists of four and (quick: a slice of the, thorough: all) lists of five partitions over a 3-position line, each through five iterator adaptors; lists of 1 to 24 short partitions in three rotations; long partitions (9-257 intervals in several adjacency patterns and shifts) merged pairwise and in folds of three, expected result from a sweep over all end points; run in the release and dev profiles; non-trivial = ordered pairs of two different non-empty partitions", np, np, n),
         assumptions: vec!["'same class exactly when' is read for interval partitions: a class other than the complement is an interval, so the result must be the coarsest refinement whose classes are intervals (maximal runs), as the statement's third clause says".into()],
         exhaustive: true,
         space: format!("compressed line {:?}", units(n)),
@@ -1106,6 +1209,28 @@ fn c20_triple(n: usize, l: &[(usize, usize)]) -> Option<String> {
 }
 
 fn c20_run(ctx: &Ctx, batch: usize, nb: usize, rep: &mut Report) {
+    // the landmark line: every interval and every ordered pair (no triples)
+    {
+        let n2 = landmark_units().len();
+        let ivs: Vec<(usize, usize)> = (0..n2).flat_map(|i| (i..n2).map(move |j| (i, j))).collect();
+        for (k, &a) in ivs.iter().enumerate() {
+            if k % nb != batch {
+                continue;
+            }
+            beat();
+            rep.inc("evaluations");
+            rep.inc("landmark_intervals");
+            if let Some(m) = c20_single(n2, a) {
+                rep.violation("C20", "c20", json!({"kind": "single", "line": n2, "a": [a.0, a.1]}), m);
+            }
+            for &b in &ivs {
+                rep.inc("evaluations");
+                if let Some(m) = c20_pair(n2, a, b) {
+                    rep.violation("C20", "c20", json!({"kind": "pair", "line": n2, "a": [a.0, a.1], "b": [b.0, b.1]}), m);
+                }
+            }
+        }
+    }
     let n = c20_line(ctx.tier);
     let ivs: Vec<(usize, usize)> = (0..n).flat_map(|i| (i..n).map(move |j| (i, j))).collect();
     let mut k = 0usize;
@@ -1164,13 +1289,14 @@ fn c20_replay(_ctx: &Ctx, c: &Value, rep: &mut Report) {
 }
 
 fn c20_meta(ctx: &Ctx) -> Meta {
+    // (the landmark line is described in the rule text below)
     let n = c20_line(ctx.tier);
     Meta {
         level: "exploration",
         rule: format!("all {} intervals over a compressed line of {} positions: every (interval, character), every ordered pair (inter, union, covers, partial_cmp, ==) and every ordered triple (inter_list; plus the empty and one-element lists) against set arithmetic over positions; run in the release profile (wrapping arithmetic) and the dev profile (overflow traps); non-trivial = ordered pairs that are adjacent or overlap in exactly one position", n * (n + 1) / 2, n),
         assumptions: vec!["CharSet operations only compare end points and add/subtract 1, so the compressed line realises every case, including adjacency at 0 and at MAX_CHAR".into()],
         exhaustive: true,
-        space: format!("compressed line {:?}", units(n)),
+        space: format!("compressed line {:?}; and a landmark line (single positions at 0x7F/0x80, 0xFF/0x100, 0x7FF/0x800, 0xD7FF/0xD800, 0xDFFF/0xE000, 0xFFFD-0xFFFF/0x10000, 0x1FFFF/0x20000 with fat positions between them) on which every interval and every ordered pair is checked in the same way", units(n)),
     }
 }
 
@@ -1463,6 +1589,28 @@ fn c15_big_ranges() -> (Vec<R>, Vec<R>) {
         ss.push((c, Some(c)));
         ss.push((c, Some(c + 1)));
     }
+    // the border of the exactness criterion c*(b-a) >= a-1 at large values: a-1 = c*w + rem for rem around 0 and c
+    // (operands and differences above 2^16, where a "safe" re-formulation with divisions would round)
+    for c in [2u32, 3, 5, 7, 1000, 65_537, 70_000] {
+        for w in [3u32, 1000, 40_000, 65_535, 65_536, 70_001, 100_000, 1 << 20] {
+            let cw = c as u64 * w as u64;
+            for rem in [0u64, 1, 2, c as u64 - 1, c as u64, c as u64 + 1] {
+                let a = cw + 1 + rem;
+                // everything the library multiplies must fit: (c+1)*(a+w) below 2^32
+                if a + (w as u64) < (1u64 << 32) && (c as u64 + 1) * (a + w as u64) < (1u64 << 32) {
+                    rs.push((a as u32, Some(a as u32 + w)));
+                    if a > 0 {
+                        rs.push((a as u32 - 1, Some(a as u32 - 1 + w)));
+                    }
+                }
+            }
+        }
+        ss.push((c, Some(c + 1)));
+        ss.push((c, Some(c)));
+        ss.push((c, None));
+    }
+    ss.sort();
+    ss.dedup();
     rs.sort();
     rs.dedup();
     (rs, ss)
